@@ -51,7 +51,9 @@ def _gen_proxy(rng, i):
                       "has": [rng.random() < 0.9, rng.random() < 0.8, rng.random() < 0.8]})
     split = sorted(rng.sample(range(1, nvals), min(nvals - 1, rng.choice([0, 1, 2])))) if nvals > 1 else []
     sp = rng.choice(["", " ", "  "])
-    return {"family": "proxy." + mode, "kind": "proxy", "mode": mode, "hops": hops, "elems": elems, "split": split, "sp": sp,
+    other = rng.choice([0, 0, 0, 1, 2, 5])
+    return {"family": "proxy." + mode + (".other-family-present" if other else ""), "kind": "proxy", "mode": mode, "hops": hops, "elems": elems, "split": split, "sp": sp,
+            "other_family": other,
             "scope_type": rng.choice(["http", "websocket"]), "prefix": [{"for": "6.6.6.6", "proto": "https", "host": "attacker.example", "has": [True, True, True]}
                                                                         for _ in range(rng.choice([1, 2]))]}
 
@@ -83,6 +85,15 @@ def _proxy_headers(case, elems):
             hs.append((b"x-forwarded-for", ("," + sp).join(e["for"] for e in g).encode()))
             hs.append((b"x-forwarded-proto", ("," + sp).join(e["proto"] for e in g).encode()))
             hs.append((b"x-forwarded-host", ("," + sp).join(e["host"] for e in g).encode()))
+    if case.get("other_family"):
+        # headers of the *other* convention, written by whoever likes (the proxies in front only maintain the configured one): never used
+        k = case["other_family"]
+        if case["mode"] == "modern":
+            hs.append((b"x-forwarded-for", ", ".join(["6.6.6.6"] * k).encode()))
+            hs.append((b"x-forwarded-proto", ", ".join(["https"] * k).encode()))
+            hs.append((b"x-forwarded-host", ", ".join(["attacker.example"] * k).encode()))
+        else:
+            hs.append((b"forwarded", ", ".join(["for=6.6.6.6;proto=https;host=attacker.example"] * k).encode()))
     hs.append((b"host", b"original.example"))
     return hs
 
